@@ -37,6 +37,9 @@ ASSUMPTIONS = ['step_calc="abs" only (relative step rules belong to C12)',
                'inputs are kept in [0.5, 1.5] so that every structural dependency has a derivative >= 0.5',
                "the approximated block of a sparse-declared partial is the quotient restricted to the declared "
                "pattern (check_partials stores it in a subjac of that pattern)",
+               'an fd block equals the harness quotient up to the round-off of the four function evaluations involved '
+               '(4 (n+9) u S / h with S = sum of operand magnitudes of the inner product, derivation in '
+               'omv/ref/derivcheck.py: eval_roundoff, fd_tolerance) plus 1e-12 relative',
                'rel error is judged only where the approximated entry is nonzero',
                "'magnitude' is judged for single-step calls only (with several steps one accumulating object is "
                "reported for all of them)",
